@@ -262,9 +262,9 @@ class Gen:
     def productions(self, t):
         common = ["atom", "atom", "tern"]
         if t == BOOL:
-            return common + ["not", "and", "or", "cmp", "cmp", "cmp", "bbit", "isempty", "ptrcmp"]
+            return common + ["not", "and", "or", "cmp", "cmp", "cmp", "bbit", "isempty", "ptrcmp", "constcmp"]
         if t == INT:
-            return common + ["arith", "arith", "arith", "bit", "shift", "neg", "minmax", "cast", "method", "subscript_int"]
+            return common + ["arith", "arith", "arith", "bit", "shift", "neg", "minmax", "cast", "method", "constfold", "constfold"]
         if t == UINT:
             return common + ["arith", "bit", "shift", "minmax", "cast"]
         if t == DOUBLE:
@@ -314,7 +314,7 @@ class Gen:
             op = rng.choice(("==", "!="))
         a, b = self.expr(ot, depth + 1), self.expr(ot, depth + 1)
         self.feat("cmp:%s:%s" % (op, ot))
-        return N("cmp", BOOL, (a, b), v=op, const=a.const and b.const)
+        return mk_cmp(op, a, b, const=a.const and b.const)
 
     def p_ptrcmp(self, t, depth):
         if self.profile == "constant":
@@ -490,6 +490,66 @@ class Gen:
 
     def p_subscript_int(self, t, depth):
         return None
+
+    # ---- forced constant-folding cells (operator x sign classes), filled round-robin
+    FOLD_OPS = ["+", "-", "*", "/", "%", "&", "|", "^", "<<", ">>", "~", "neg"]
+    SIGNS = [(1, 1), (-1, 1), (1, -1), (-1, -1)]
+
+    def next_fold_cell(self):
+        if not getattr(self, "_fold_cells", None):
+            cells = [(op, sg) for op in self.FOLD_OPS for sg in self.SIGNS]
+            self.rng.shuffle(cells)
+            self._fold_cells = cells
+        return self._fold_cells.pop()
+
+    def int_lit(self, v):
+        n = N("lit", INT, v=(abs(v), self.int_spelling(abs(v))), const=True)
+        return N("un", INT, (n,), v="-", const=True) if v < 0 else n
+
+    def p_constfold(self, t, depth):
+        """A literal-only integer sub-expression: folded at translation time, must mean the same as at run time."""
+        rng = self.rng
+        op, (sa, sb) = self.next_fold_cell()
+        a = sa * rng.choice((7, 10, 31, 100, 255, 1000, 46341))
+        b = sb * rng.choice((2, 3, 7, 16, 1000))
+        if op in ("<<", ">>"):
+            a, b = abs(a) if op == "<<" else a, rng.choice((0, 1, 3, 8))
+            if a < 0:
+                a = -a   # shifting a negative value is not defined
+        if op == "~":
+            e = N("un", INT, (self.int_lit(a),), v="~", const=True)
+        elif op == "neg":
+            e = N("un", INT, (self.int_lit(a),), v="-", const=True)
+        else:
+            e = N("bin", INT, (self.int_lit(a), self.int_lit(b)), v=op, const=True)
+        try:
+            Interp({}).ev(e)
+        except Undefined:
+            return None
+        self.feat("fold:%s:%s%s" % (op, "+" if sa > 0 else "-", "+" if sb > 0 else "-"))
+        return e
+
+    def p_constcmp(self, t, depth):
+        """Comparison of two constants (folded): integers of either sign, doubles, strings incl. astral vs BMP-high."""
+        rng = self.rng
+        op = rng.choice(("==", "!=", "<", "<=", ">", ">="))
+        r = rng.random()
+        if r < 0.4:
+            a, b = self.p_constfold(INT, depth), self.p_constfold(INT, depth)
+            if a is None or b is None:
+                return None
+            ot = "int"
+        elif r < 0.6:
+            a, b = self.lit(DOUBLE), self.lit(DOUBLE)
+            ot = "double"
+        else:
+            pool = ["a", "b", "ab", "", "A", "\u00e9", "z", "\ufffd", "\U00010000", "\U0001F600", "\uff5e", "a\U00010000", "a\ufffd"]
+            sa, sb = rng.choice(pool), rng.choice(pool)
+            a = N("lit", STR, v=(sa, strings.js_literal(rng, sa)), const=True)
+            b = N("lit", STR, v=(sb, strings.js_literal(rng, sb)), const=True)
+            ot = "str-astral" if (max(map(ord, sa or "a")) > 0xffff) != (max(map(ord, sb or "a")) > 0xffff) else "str"
+        self.feat("foldcmp:%s:%s" % (op if ot != "str-astral" else "ord", ot))
+        return mk_cmp(op, a, b, const=True)
 
     # ---- statements (value programs: every path yields a value)
     def program(self, t, kind=None):
@@ -736,10 +796,24 @@ def prec_of(n):
     return 20
 
 
-def pr(n, rng=None, parent=0, right=False):
+ATOMIC = ("lit", "prop", "local", "obj", "implicit", "call", "index", "enum", "this", "null", "minmax", "tr", "listlit")
+
+
+def mk_cmp(op, a, b, const=False):
+    """Comparison node.  `x < (...)` trips the TypeScript-derived grammar (type-argument ambiguity: it is misparsed
+    or rejected), which is a property of the third-party parser, not of qmluic: such comparisons are built as
+    `(...) > x` instead."""
+    if op == "<" and b.k not in ATOMIC:
+        op, a, b = ">", b, a
+    return N("cmp", BOOL, (a, b), v=op, const=const)
+
+
+def pr(n, rng=None, parent=0, right=False, no_extra=False):
     """Print an expression node with minimal parentheses (plus random redundant ones)."""
     s = _pr(n, rng)
     p = prec_of(n)
+    if no_extra:
+        rng = None
     need = p < parent or (p == parent and (right or n.k == "tern" or n.k == "cast"))
     if n.k == "cast":
         need = parent > 0
@@ -777,7 +851,7 @@ def _pr(n, rng):
         return n.v + inner
     if k in ("bin", "cmp", "logic"):
         p = PREC[n.v]
-        return "%s %s %s" % (pr(n.a[0], rng, p), n.v, pr(n.a[1], rng, p, right=True))
+        return "%s %s %s" % (pr(n.a[0], rng, p), n.v, pr(n.a[1], rng, p, right=True, no_extra=(n.v == "<")))
     if k == "tern":
         return "%s ? %s : %s" % (pr(n.a[0], rng, 4), pr(n.a[1], rng, 3, right=False) if n.a[1].k != "tern" else "(" + pr(n.a[1], rng) + ")",
                                  pr(n.a[2], rng, 3) if n.a[2].k != "tern" else pr(n.a[2], rng, 0))
@@ -824,7 +898,12 @@ def pr_stmts(stmts, rng, ind):
             subject, labels, dpos, bodies = s.a
             out.append("%sswitch (%s) {" % (pad, pr(subject, rng)))
             li = 0
+            # comments between clauses are valid JS; the current translator happens to reject them (then the program
+            # simply counts as rejected), but if it accepts them the meaning must not change
+            commented = rng is not None and rng.random() < 0.06
             for i, body in enumerate(bodies):
+                if commented and rng.random() < 0.6:
+                    out.append("%s// clause %d" % (pad, i))
                 if dpos is not None and i == dpos:
                     out.append("%sdefault:" % pad)
                 else:
